@@ -23,7 +23,7 @@ open Ural.Py Ural.UrlParts Ural.Quote
 
 /-- the four `safely_unquote_*` functions with their regenerated unsafe sets: three partials of
 `unquote`, and for a user name / password the partial followed by the re-quoting of the NFKC
-look-alikes of a delimiter (`Model/QuoteAuth.lean`, FX-C01-NFKCUSERINFO) -/
+look-alikes of a delimiter (`Model/QuoteAuth.lean`, FX-C01-194b1c7) -/
 def unquoteAuthItem : Str → Str := safelyUnquoteAuthItem
 def unquotePath : Str → Str := safelyUnquote Gen.Quote.unsafeForPath
 def unquoteQueryItem : Str → Str := safelyUnquote Gen.Quote.unsafeForQueryItem
